@@ -6,9 +6,10 @@ from concurrent.futures import ThreadPoolExecutor
 import vlib
 
 # operation codes (harness/cmd/c07/main.go, Model/Registry.v `op`, Corr/C07.v dec_op)
-ACCEPT, HANDSHAKE, HEARTBEAT, CLOSE, REMOVE, UNREG, KICK, SWEEP, TICK, REGRAW, AUTHRAW, TOTUNNEL, BREAK, REREG, REREGNEW = range(15)
+ACCEPT, HANDSHAKE, HEARTBEAT, CLOSE, REMOVE, UNREG, KICK, SWEEP, TICK, REGRAW, AUTHRAW, TOTUNNEL, BREAK, REREG, REREGNEW, REGCLAIM, ADACCEPT, ADEND = range(18)
 OPNAMES = ["Accept", "Handshake", "Heartbeat", "CloseConnection", "RemoveControlConnection", "Unregister", "KickOld",
-           "Sweep", "Tick", "RegisterRaw", "UpdateAuthRaw", "ToTunnel", "BreakWrites", "ReRegister", "ReRegisterNewStream"]
+           "Sweep", "Tick", "RegisterRaw", "UpdateAuthRaw", "ToTunnel", "BreakWrites", "ReRegister", "ReRegisterNewStream",
+           "RegisterUnauthenticatedClaim", "AdapterAccept", "AdapterReadLoopEnds"]
 KNOWN_KEY = "reauth-stale-index"
 REREG_KEY = "register-replace-closes-shared-stream"
 # Register of a ConnID that already has an (authenticated) record; the replacement wraps the same stream
@@ -16,6 +17,16 @@ WITNESS_REREG = [[ACCEPT, 1], [HANDSHAKE, 1, 0, 7, 1], [REREG, 1, 9], [CLOSE, 1]
 WITNESS_REREG_UNAUTH = [[ACCEPT, 1], [HANDSHAKE, 1, 0, 7, 1], [REREG, 1, 0], [CLOSE, 1]]
 WITNESS_REREG_NEW = [[ACCEPT, 1], [HANDSHAKE, 1, 0, 7, 1], [REREGNEW, 1, 0], [CLOSE, 1]]
 WITNESS_REREG_NEW_AUTH = [[ACCEPT, 1], [ACCEPT, 2], [HANDSHAKE, 1, 0, 7, 1], [REREGNEW, 1, 9], [HANDSHAKE, 2, 0, 9, 1], [CLOSE, 1]]
+
+# cloud-control fault at teardown; persistent transport whose read loop ends (real adapter); unauthenticated record claiming a client id
+CFG_CLOUD_FAIL = {"maxConn": 0, "maxCtl": 0, "tmo": 2, "cc": 1, "discFail": 2, "ensureFail": 1, "discFalse": 0}
+WITNESS_CLOUD_FAIL = [[ACCEPT, 1], [HANDSHAKE, 1, 0, 7, 1], [HEARTBEAT, 1], [CLOSE, 1]]
+WITNESS_CLOUD_FAIL_SWEEP = [[ACCEPT, 1], [HANDSHAKE, 1, 0, 7, 1], [TICK, 3], [SWEEP]]
+WITNESS_PERSISTENT = [[ADACCEPT, 1, 1], [HANDSHAKE, 1, 0, 7, 1], [ADEND, 1, 0]]
+WITNESS_ADAPTER_ERR = [[ADACCEPT, 1, 0], [ADACCEPT, 2, 1], [HANDSHAKE, 1, 0, 7, 1], [HANDSHAKE, 2, 0, 7, 1], [ADEND, 2, 1], [ADEND, 1, 1]]
+WITNESS_CLAIM = [[ACCEPT, 1], [ACCEPT, 2], [HANDSHAKE, 1, 0, 7, 1], [REGCLAIM, 2, 7], [CLOSE, 2]]
+EX_ALPHABET_AD = [[ADACCEPT, 1, 1], [ADACCEPT, 2, 0], [HANDSHAKE, 1, 0, 1, 1], [HANDSHAKE, 2, 0, 1, 1], [HANDSHAKE, 2, 0, 2, 1], [ADEND, 1, 0],
+                  [ADEND, 2, 1], [CLOSE, 1], [REMOVE, 2], [REGCLAIM, 1, 2], [REGCLAIM, 2, 1], [HEARTBEAT, 1], [SWEEP], [TICK, 3], [KICK, 1, 2]]
 
 # lock contention: (config, prefix, A, B) — A and B are started while the harness holds the registry mutex
 LOCK_CASES = [
@@ -126,7 +137,9 @@ def rand_op(rng, conns, clients):
     if r < 0.935:
         return [AUTHRAW, c, x]
     if r < 0.955:
-        return rng.choice([[REREG, c, 0], [REREG, c, x], [REREG, c, x], [REREGNEW, c, 0], [REREGNEW, c, x]])
+        return rng.choice([[REREG, c, 0], [REREG, c, x], [REREG, c, x], [REREGNEW, c, 0], [REREGNEW, c, x], [REGCLAIM, c, x], [REGCLAIM, c, x]])
+    if r < 0.972:
+        return rng.choice([[ADACCEPT, c, 0], [ADACCEPT, c, 1], [ADEND, c, 0], [ADEND, c, 1], [ADEND, c, 0]])
     if r < 0.98:
         return [TOTUNNEL, c, rng.choice([0, 1, 1, 2])]
     return [BREAK, c]
@@ -138,13 +151,16 @@ def gen_structured(rng, n, maxdepth):
         nconn = rng.choice([2, 3, 3, 3, 4])
         conns = list(range(1, nconn + 1))
         clients = rng.choice([[1, 2], [1, 2], [1, 2, 3], [100, 200], [7]])
-        cfg = {"maxConn": rng.choice([0, 0, 0, 0, 2, 3]), "maxCtl": rng.choice([0, 0, 0, 1, 2, 2]), "tmo": rng.choice([1, 2, 2, 3])}
+        cfg = {"maxConn": rng.choice([0, 0, 0, 0, 2, 3]), "maxCtl": rng.choice([0, 0, 0, 1, 2, 2]), "tmo": rng.choice([1, 2, 2, 3]),
+               # cloud-control double with a fault pattern (each method: never / first call / always fails; "not matched" answers)
+               "cc": rng.choice([0, 1, 1]), "discFail": rng.choice([0, 0, 1, 2, 2]), "ensureFail": rng.choice([0, 1, 2]),
+               "discFalse": rng.choice([0, 0, 1])}
         depth = rng.randrange(1, maxdepth + 1)
         ops = []
-        # mostly-valid: connections are usually accepted before being used
+        # mostly-valid: connections are usually accepted before being used (a quarter of them through the real adapter)
         for c in conns:
             if rng.random() < 0.8 and len(ops) < depth:
-                ops.append([ACCEPT, c])
+                ops.append([ACCEPT, c] if rng.random() < 0.75 else [ADACCEPT, c, rng.choice([0, 1])])
         script = rng.random() < 0.35     # login / idle / sweep scripts: everybody logs in, time passes, some heartbeat, sweep
         if script:
             for c in conns:
@@ -187,7 +203,7 @@ def gen_malformed(rng, n, maxdepth):
 
 
 def flat(st):
-    f = [st["err"], st["n"], st.get("fired", 0), len(st["sess"])] + st["sess"] + [len(st["reg"])]
+    f = [st["err"], 0 if st.get("adapter_end") else st["n"], st.get("fired", 0), len(st["sess"])] + st["sess"] + [len(st["reg"])]
     for e in st["reg"]:
         f += e
     f.append(len(st["idx"]))
@@ -200,6 +216,10 @@ def flat(st):
     for e in st["tmap"]:
         f += e
     f += st["cnt"] + [len(st["la"])] + st["la"]
+    calls = [] if st.get("fired_or_injected") else (st.get("calls") or [])
+    f.append(len(calls))
+    for e in calls:
+        f += e
     return f
 
 
@@ -208,8 +228,24 @@ def pad(o):
 
 
 def case_value(variant, cfg, ops, steps, mode=0):
-    """variant: 0 Pinned, 1 Current, 2 Head (Corr/C07.dec_variant); mode 1 = lock-contention case (final state only)"""
-    return [variant, [cfg["maxConn"], cfg["maxCtl"], cfg["tmo"]], [pad(o) for o in ops], [flat(s) for s in steps], mode]
+    """variant: 0 Pinned, 1 Current, 2 Head (Corr/C07.dec_variant); mode 1 = lock-contention case (final state only).
+    The adapter-driven operations are given to the model as what they must amount to: AdapterAccept = Accept,
+    the end of a live adapter read loop = CloseConnection (anything else: no-op)."""
+    mops, msteps = [], []
+    for o, st in zip(ops, steps):
+        st = dict(st)
+        if len(o) > 5 and o[5]:
+            st["fired_or_injected"] = True
+        if o[0] == ADACCEPT:
+            o = [ACCEPT, o[1]]
+        elif o[0] == ADEND:
+            live = st["n"] == 1
+            st["adapter_end"] = True
+            o = [CLOSE, o[1]] if live else [TICK, 0]
+        mops.append(o)
+        msteps.append(st)
+    mops += ops[len(steps):]
+    return [variant, [cfg["maxConn"], cfg["maxCtl"], cfg["tmo"], cfg.get("cc", 0)], [pad(o) for o in mops], [flat(s) for s in msteps], mode]
 
 
 def model_cut(ops):
@@ -222,7 +258,7 @@ def model_cut(ops):
 
 def describe(ops):
     def one(o):
-        return "%s(%s)" % (OPNAMES[o[0]] if o[0] < 15 else "?", ",".join(map(str, o[1:5])))
+        return "%s(%s)" % (OPNAMES[o[0]] if o[0] < 18 else "?", ",".join(map(str, o[1:5])))
     return "; ".join(one(o) if len(o) <= 5 or not o[5] else "%s{at I/O point %d: %s}" % (one(o), o[5] - 1, one(o[6:])) for o in ops)
 
 
@@ -304,6 +340,9 @@ def run(ctx, only_cases=None):
                                                                          WITNESS_LATE_CLOSE, WITNESS_CLOSE_RELOGIN, WITNESS_KICK_CLOSE,
                                                                          WITNESS_REREG_UNAUTH, WITNESS_REREG_NEW, WITNESS_REREG_NEW_AUTH)]
     probes.insert(1, {"cfg": CFG0, "ops": WITNESS_REREG, "stream": "witness"})
+    probes += [{"cfg": CFG_CLOUD_FAIL, "ops": WITNESS_CLOUD_FAIL, "stream": "witness"}, {"cfg": CFG_CLOUD_FAIL, "ops": WITNESS_CLOUD_FAIL_SWEEP, "stream": "witness"},
+               {"cfg": CFG0, "ops": WITNESS_PERSISTENT, "stream": "witness"}, {"cfg": CFG_CLOUD_FAIL, "ops": WITNESS_ADAPTER_ERR, "stream": "witness"},
+               {"cfg": CFG0, "ops": WITNESS_CLAIM, "stream": "witness"}]
     if only_cases is not None:
         cases = probes[:2] + only_cases
     else:
@@ -359,6 +398,8 @@ def run(ctx, only_cases=None):
                  ({"maxConn": 0, "maxCtl": 2, "tmo": 2}, EX_PREFIX, EX_ALPHABET_LIMIT, 5 if thorough else 3, 29 if thorough else 5, ()),
                  # interleavings: every I/O point of every handshake / close / kick of the word x every injectable operation
                  (CFG0, EX_PREFIX, EX_ALPHABET_REREG, 5 if thorough else 3, 41 if thorough else 3, ()),
+                 # real adapter (persistent / ordinary transports, EOF / error), cloud control failing on every call, unauthenticated claims
+                 (CFG_CLOUD_FAIL, [], EX_ALPHABET_AD, 4 if thorough else 3, 13 if thorough else 3, ()),
                  (CFG0, EX_PREFIX, EX_ALPHABET, 4 if thorough else 2, 61 if thorough else 7, EX_INJECT),
                  ({"maxConn": 0, "maxCtl": 2, "tmo": 2}, EX_PREFIX, EX_ALPHABET_LIMIT, 3 if thorough else 2, 31 if thorough else 7, EX_INJECT)]
         for cfg, prefix, alpha, depth, stride, inject in plans:
@@ -475,7 +516,7 @@ def run(ctx, only_cases=None):
         h = json.dumps([c["cfg"], c["ops"]], sort_keys=True)
         distinct.add(h)
         for op in c["ops"]:
-            if op[0] < 15:
+            if op[0] < 18:
                 hist[OPNAMES[op[0]]] += 1
         lens[len(c["ops"])] = lens.get(len(c["ops"]), 0) + 1
         st = o["steps"]
